@@ -11,7 +11,8 @@ from asphalt.core import Context, ResourceNotFound, start_component  # noqa: E40
 
 T, OTHER = RT[0], RT[1]
 MATCH_KINDS = ["add_resource(T,'special')", "add_resource_factory(T,'special')", "add_resource([OTHER,T],'special')",
-               "alias 'p/special': add_resource(T) with the default name in start()", "falsy value {} as (T,'special')"]
+               "alias 'p/special': add_resource(T) with the default name in start()", "falsy value {} as (T,'special')",
+               "add_resource_factory(T,'special') with an ASYNC factory"]
 FILLERS = ["same name, other type", "same type, other name"]
 
 
@@ -28,6 +29,12 @@ def publisher_steps(env, vals, match_kind, pos, fillers, cps):
                     env.ev("factory_called")
                     return v
                 steps.append(("fac", "MATCH", cb, "special", [T]))
+            elif match_kind == 5:
+                async def acb(v=v):
+                    env.ev("factory_called")
+                    await anyio.sleep(0)
+                    return v
+                steps.append(("fac", "MATCH", acb, "special", [T]))
             elif match_kind == 2:
                 steps.append(("pub", "MATCH", v, "special", [OTHER, T]))
             elif match_kind == 3:
@@ -54,7 +61,7 @@ def sched_cfg(tier):
 
 def sched_params(tier):
     D, L = sched_cfg(tier)
-    ps = [P("mk", 0, 4), P("pos", 0, 2), P("cps", 0, 1), P("wphase", 0, 1), P("pphase", 0, 1), P("f0", 0, 1)]
+    ps = [P("mk", 0, 5), P("pos", 0, 2), P("cps", 0, 1), P("wphase", 0, 1), P("pphase", 0, 1), P("f0", 0, 1)]
     if tier != "quick":
         ps += [P("wdelay", 0, 2), P("f1", 0, 1)]
     for j in range(D):
@@ -67,7 +74,7 @@ def sched_params(tier):
 def sched_fn(a, tier):
     D, L = sched_cfg(tier)
     quick = tier == "quick"
-    mk, pos = pick(a["mk"], 5), pick(a["pos"], 3)
+    mk, pos = pick(a["mk"], 6), pick(a["pos"], 3)
     cps, wphase = pick(a["cps"], 2), pick(a["wphase"], 2)
     pphase = 1 if mk == 3 else pick(a["pphase"], 2)  # default-name remapping happens in start() only
     f0 = pick(a["f0"], 2)
@@ -100,7 +107,8 @@ def sched_fn(a, tier):
     noise = NodeSpec(4, 0, prepare=None, start=[("pub", "noise", object(), "default", [T])], alias="q/other")
     # a plain-aliased sibling AFTER the slashed ones: its default-named resource must stay (T,'default')
     plain = NodeSpec(5, 0, prepare=None, start=[("pub", "plain", object(), "default", [T])], alias="plain")
-    root = NodeSpec(0, -1, prepare=[], start=[])
+    # the root first gives up an optional dependency (a wait that is cancelled): nothing of it may stay behind
+    root = NodeSpec(0, -1, prepare=[("giveup", RT[4], "never")], start=[])
     nodes = [root, w1, pub, w2, noise, plain]
     classes = build_classes(env, nodes)
     out = {}
@@ -142,7 +150,7 @@ def sched_fn(a, tier):
         got = env.values[(waiter, "w")]
         if got is not vals["match"]:
             return FAIL(f"wrong-object:{MATCH_KINDS[mk]}", f"waiter {waiter} got {got!r}", summary)
-    if mk == 1 and env.count("factory_called") != 1:
+    if mk in (1, 5) and env.count("factory_called") != 1:
         return FAIL("factory-product-not-shared", env.count("factory_called"), summary)
     if out["final"] is not vals["match"]:
         return FAIL("final-lookup-differs", "", summary)
